@@ -315,17 +315,21 @@ def _ens_run(h, method):
         h.unsupported('symbolic only')
     new = h.choice('ensemble_is_new', [True, False])
     strict = h.choice('members_use_strict_ranges', [False, True])
+    # a configured solver INSTANCE given as nested solver has no objective of its own (only _Solve hands one over)
+    bare = h.choice('members_are_configured_instances_without_objective', [False, True]) if method == '_Solve' else False
     pts = [h.vec('start0', 2), h.vec('start1', 2)]
     log = []
     members = []
     for i in range(2):
         members.append(h.obj(None, id=i, _useStrictRange=strict, _strictMin=h.vec('mn%d' % i, 2), _strictMax=h.vec('mx%d' % i, 2),
-                             _useTightRange=None, _useClipRange='member-clip-mode', _live=True, _cost=h.tup(None, h.fn('RAW', ret='real'), None),
+                             _useTightRange=None, _useClipRange='member-clip-mode', _live=True,
+                             _cost=h.tup(None, None if bare else h.fn('MEMBER_OBJECTIVE', ret='real'), None),
                              _stepmon=None, _evalmon=None))
     cb = h.fn('CALLBACK', ret='none')
-    cost = h.fn('COST', ret='real')
+    cost = h.fn('DECORATED_COST', ret='real')        # what _bootstrap_objective returns: bounds / penalty / monitors applied
+    raw = h.fn('RAW_USER_COST', ret='real')
     s = h.obj(ENS, _allSolvers=h.clist([None, None] if new else list(members)), _useClipRange='ensemble-clip-mode', _mapconfig=h.dict(),
-              _evalmon=None, _stepmon=None, _cost=h.tup(None, cost, None), _live=True, id=None)
+              _evalmon=None, _stepmon=None, _cost=h.tup(None, raw, None), _live=True, id=None)
 
     def member_method(name):
         def f(I, c, args, kwargs):
@@ -377,10 +381,18 @@ def _ens_run(h, method):
     h.check('C09/every-member-advanced-once-with-the-callers-callback', 'ok',
             ok=(len(advs) == 2 and [a[0] for a in advs] == members and all(a[2].get('callback') is cb for a in advs)))
     h.check('C09/results-collected-then-reduced-to-the-best-member', 'ok', ok=(order[-2:] == ['collect', 'reduce']))
+    objs = [(m, a) for (nm, m, a, k) in log if nm == 'SetObjective']
+    if bare:
+        # such members run on the ENSEMBLE's decorated objective: the only way the ensemble's strict ranges, penalty and
+        # monitors reach them
+        h.check('C02/members-without-objective-get-the-ensembles-decorated-objective', 'ok',
+                ok=(len(objs) == 2 and [o[0] for o in objs] == members and all(o[1][0] is cost for o in objs)))
+    else:
+        h.check('C09/members-with-their-own-objective-keep-it', 'ok', ok=(not objs))
 
 
 contract('C09/ensemble._Step/member-hand-off', ['C09', 'C07'], ENS + '._Step', native=False)(lambda h: _ens_run(h, '_Step'))
-contract('C09/ensemble._Solve/member-hand-off', ['C09', 'C07'], ENS + '._Solve', native=False)(lambda h: _ens_run(h, '_Solve'))
+contract('C09/ensemble._Solve/member-hand-off', ['C09', 'C07', 'C02'], ENS + '._Solve', native=False)(lambda h: _ens_run(h, '_Solve'))
 
 
 @contract('C09/BuckshotSolver._InitialPoints', ['C09', 'C02'], 'mystic/ensemble.py::BuckshotSolver._InitialPoints', native=False)
